@@ -25,7 +25,7 @@ RULE = ("triangulated zoo surfaces in generic position (lifted Delaunay disks, r
         "weight where invariance is judged); cotangent or uniform weights; non-trivial = order != 4 or features present or closed surface; "
         "distinct = (mesh, order, element kind, options) hash")
 REQUIRED = {"unit": 100, "constraints": 60, "singularities": 30, "harmonic": 40, "hermitian": 40, "invariance": 30}
-CASE_TIMEOUT = {"quick": 60.0, "thorough": 900.0}
+CASE_TIMEOUT = {"quick": 30.0, "thorough": 900.0}
 ASSUMPTIONS = ["cad_correction is switched off: its OSQP call fails in this sandbox with the same OSQP.setup() TypeError as the 13 pre-existing baseline test failures",
                "closed surfaces use a randomly started eigen-iteration: only unit modulus and singularity sums are judged there",
                "invariance is judged with n_smooth = 0 or an explicit smooth_attach_weight (ARPACK's random start is otherwise in the picture), on elements whose "
